@@ -1,4 +1,5 @@
 import OapiVerif.Proofs.Responses
+import OapiVerif.Proofs.GoJsonEnc
 /-!
 C13 — Client response parsing fills the declared slot.
 
@@ -119,3 +120,35 @@ theorem C13_substring_class_witness : parse exSubstr 200 (w "text/x-json") = som
   decide
 
 end OapiVerif.Responses
+
+namespace OapiVerif.GoJson
+
+/-- Last clause of C13 — the JSON request body a typed client method sends (`json.Marshal` of the value) is the faithful
+encoding of the value: decoding it (`json.Unmarshal` into the same type, as the server does) gives the value back, for
+every value of every well-formed type of the fragment, at any nesting depth. `stable` excludes the two kinds of value
+that no JSON text distinguishes from another Go value (witnesses below). -/
+theorem C13_json_body_decodes_to_value (t : GoTy) (v : GoVal) (hw : wf t = true) (ht : hasTy t v = true)
+    (hs : stable t v = true) : ∃ j, encode t v = some j ∧ decode t j = some v := enc_dec t v hw ht hs
+
+/-- … and such a body is never `null` unless the value is nil (an optional body that is present is not mistaken for an
+absent one). -/
+theorem C13_json_body_null_only_for_nil (t : GoTy) (v : GoVal) (j : JVal) (he : encode t v = some j)
+    (hn : isNilV v = false) (hs : stable t v = true) : j ≠ .null := enc_ne_null t v j he hn hs
+
+/-- Outside `stable`, first kind: an empty but non-nil slice in an `omitempty` member is left out and read back as nil. -/
+theorem C13_empty_slice_under_omitempty_witness :
+    (encode (.struct (.cons "xs" true (.slice .string) .nil)) (.struct [.slice []])).bind
+      (decode (.struct (.cons "xs" true (.slice .string) .nil))) = some (.struct [.nilv]) := by
+  simp [encode, encodeFields, isEmpty, decode, decodeFields, lookup, zero, zeros]
+
+/-- Second kind: a non-nil pointer to a nil slice is written as `null` and read back as a nil pointer. -/
+theorem C13_pointer_to_nil_witness :
+    (encode (.ptr (.slice .string)) (.ptr .nilv)).bind (decode (.ptr (.slice .string))) = some .nilv := by
+  simp [encode, decode]
+
+/-- Non-vacuity: a nested value with an optional member left out, a map and a 64-bit extreme meets the hypotheses. -/
+example : let t := GoTy.struct (.cons "id" false int64 (.cons "tags" true (.ptr (.slice .string)) (.cons "m" false (.map uint8) .nil)))
+    let v := GoVal.struct [.int 9223372036854775807, .nilv, .map [("a", .int 1), ("b", .int 255)]]
+    wf t = true ∧ hasTy t v = true ∧ stable t v = true := by decide
+
+end OapiVerif.GoJson
